@@ -58,7 +58,9 @@ func MetricKey(name string, labels []*dto.LabelPair) string {
 	return name + "{" + strings.Join(parts, ",") + "}"
 }
 
-func strconvQuote(s string) string { return `"` + strings.ReplaceAll(strings.ReplaceAll(s, `\`, `\\`), `"`, `\"`) + `"` }
+func strconvQuote(s string) string {
+	return `"` + strings.ReplaceAll(strings.ReplaceAll(s, `\`, `\\`), `"`, `\"`) + `"`
+}
 
 // Sum adds up all series of a metric family whose labels include all given label pairs ("k=v").
 func (m Metrics) Sum(name string, labelPairs ...string) float64 {
